@@ -976,6 +976,13 @@ func (c *clientPlaySessionHandler) handleFinishedUpdate(p *config.FinishedUpdate
 	if !c.player.MinecraftConn.SwitchSessionHandler(state.Config) {
 		panic("expected client to have config session handler")
 	}
+	// The config session handler is kept and reused for every configuration
+	// phase of this connection: start the new phase without the previous one's
+	// state. The server we reconfigure for (the in-flight connection on a server
+	// switch, else the connected server) has completed its login already.
+	if configHandler, ok := c.player.MinecraftConn.ActiveSessionHandler().(*clientConfigSessionHandler); ok {
+		configHandler.reconfigure(c.player.connectionInFlightOrConnectedServer())
+	}
 	serverConn := c.player.connectedServer()
 	if serverConn != nil {
 		smc, ok := serverConn.ensureConnected()
